@@ -16,7 +16,7 @@ USES_FACTS = True
 DRIVER = "shootmodel_det"
 
 MANIFEST = dict(
-    text="Lean 4 theorems: every Go map iteration of the generator is modelled with an explicit iteration-order oracle and the composed run is shown independent of it on well-formed inputs (distinct-key writes, existential tests, collect-then-sort, single contributor, injective alias map, unique type name); the table of map-range sites and of clock/random/environment uses is regenerated from the CURRENT source and must be covered; generated files are read back only through the accessor-interface look-up of embedded types (stale independence, step level; fixpoint for map/enum/rest); a written file does not depend on what the directory held (C07_writes_any_dir) and the table of file-system READS of the CURRENT source is covered - main, which writes the output, reads nothing (C07_read_sites_covered, C07_output_not_read). Findings with witnesses: duplicate alias, message order, embedder-first non-fixpoint, stale all-in-one output. Tied to the code by byte comparison of the files written by the rebuilt shoot over run histories (fresh x N, repeat x N, delete+rerun, growing and SHRINKING source edits with the previous output in place vs a clean directory, separate->all-in-one->back) at two absolute locations, for generated new/map/enum/rest packages.",
+    text="Lean 4 theorems: every Go map iteration of the generator is modelled with an explicit iteration-order oracle and the composed run is shown independent of it on well-formed inputs (distinct-key writes, existential tests, collect-then-sort, single contributor, injective alias map, unique type name); the table of map-range sites and of clock/random/environment uses is regenerated from the CURRENT source and must be covered, and in every distinct-keys site the map writes of the loop body are indexed by the range key itself (C07_distinct_key_writes: a transformed key could collide); generated files are read back only through the accessor-interface look-up of embedded types (stale independence, step level; fixpoint for map/enum/rest); a written file does not depend on what the directory held (C07_writes_any_dir) and the table of file-system READS of the CURRENT source is covered - main, which writes the output, reads nothing (C07_read_sites_covered, C07_output_not_read). Findings with witnesses: duplicate alias, message order, embedder-first non-fixpoint, stale all-in-one output. Tied to the code by byte comparison of the files written by the rebuilt shoot over run histories (fresh x N, repeat x N, delete+rerun, growing and SHRINKING source edits with the previous output in place vs a clean directory, separate->all-in-one->back) at two absolute locations, for generated new/map/enum/rest packages.",
     note="The theorem C07_proposed_repair_fixpoint is about the PROPOSED repair notes/proposed/deps-first-and-shadow-aio.patch (not applied; codeRepair = noRepair), not about the code at HEAD. Lean kernel + standard axioms; model tied by the correspondence run and by Gen/Facts.lean (mapRangeSites, envSites). go/packages file order and go/types redeclaration handling are assumptions of the disk model (validated by the stale-output legs).",
     technique="Lean 4 proof (permutation invariance of folds, list induction) + differential run-history correspondence",
     design="5/C07")
@@ -138,6 +138,9 @@ def shrink_text(pk, rng):
         if cmd == "enum":
             files["t.go"] = _without_lines(files["t.go"], lambda ln: ln == "// %s is an enumeration" % x,
                                            lambda ln, j, ls: re.match(r"// \w+ is an enumeration$", ln))
+            if "t_ext.go" in files:
+                t = re.sub(r"const %sExtra [^\n]*\n\n?" % x, "", files["t_ext.go"])
+                files["t_ext.go"] = re.sub(r"const \(\n\t%sOnly [^\n]*\n[^\n]*\n\)\n\n?" % x, "", t)
         elif cmd == "rest":
             files["t.go"] = _without_lines(files["t.go"], lambda ln: ln == "// %s talks to a service" % x,
                                            lambda ln, j, ls: ls[j - 1] == "" and ls[j - 2] == "}")
@@ -220,10 +223,11 @@ def hand_packages(rng):
     b = H.hand_struct("Base", [H.hand_field("name", "string"), H.hand_field("age")])
     o = H.hand_struct("Order", [H.hand_embed(b), H.hand_field("id"), H.hand_field("Amount", "string")])
     out.append(H.build_new_pkg([b, o], ["-getset", "-json"], extra_feats=["hand-base-order"]))
-    # chain of three, the middle type has no unexported field of its own
-    e = H.hand_struct("Echo", [H.hand_field("name", "string")])
+    # chain of three, the middle type has no unexported field of its own; declared (and listed) embedded-type-first, which is the
+    # REVERSE of the alphabetical order of the names: the all-in-one modes must process the types in declaration order
+    e = H.hand_struct("Omega", [H.hand_field("name", "string")])
     mid = H.hand_struct("Frame", [H.hand_embed(e), H.hand_field("Label", "string")])
-    top = H.hand_struct("Omega", [H.hand_embed(mid), H.hand_field("id")])
+    top = H.hand_struct("Echo", [H.hand_embed(mid), H.hand_field("id")])
     out.append(H.build_new_pkg([e, mid, top], ["-getset", "-json"], extra_feats=["hand-chain3"]))
     # map with chains of nested embedded pointer structs on both sides (nilCheckWrite: several pointer paths)
     # E1/EE: own field first; H1/HH: the embedded pointer first (the deepest field is met first and pulls ALL its pointer paths
@@ -238,8 +242,9 @@ def hand_packages(rng):
                 "types": ["D", "P"], "all_types": ["D", "P"], "setup": [], "feats": {"map": 1, "hand-ptr-chains": 1}, "star": False, "nexec": 12})
     # enum with every flag: the generated file declares `const _<t>_max = …`, `var _<t>_values …`; they must not become
     # members when the command runs again over its own output
-    out.append(detgen.gen_enum_pkg(rng, {"flags": ["-bit", "-json", "-text", "-sql"]}))
-    out.append(detgen.gen_rest_pkg(rng, {"headers": True}))
+    out.append(detgen.gen_enum_pkg(rng, {"flags": ["-bit", "-json", "-text", "-sql"], "multifile": True}))
+    # every client with a headers directive that names a header in several spellings differing only in case
+    out.append(detgen.gen_rest_pkg(rng, {"headers": True, "dupcase": True}))
     return out
 
 
@@ -828,7 +833,7 @@ def run(ctx, obl):
                 "removed: the new all-in-one output is the old one cut short; the first / a middle type removed; a field, a constant, a method removed), "
                 "separate -> all-in-one -> separate, a second absolute location of different depth; for one job per (sub-command, mode) also another environment "
                 "(empty GOCACHE, other HOME/TMPDIR/TZ/LANG, GOFLAGS=-mod=mod -trimpath, umask 077) and the same command run through `go generate`; N = %d process executions per point; written files compared "
-                "byte for byte. Plus the conditional map-range sites (type parameter named like the requested type; two parameters aliased to one placeholder; "
+                "byte for byte. rest packages name headers in spellings that differ only in case (and alias parameters whose names differ only in case) and are then generated in at least 10 processes per point; enum packages declare part or all of a type's constants in another file than the type. Plus the conditional map-range sites (type parameter named like the requested type; two parameters aliased to one placeholder; "
                 "success-message order) with their well-formed twins. non-trivial = at least two types / files" % nexec)
     res.assumptions = ["the second location uses the same module path (a different module path legitimately changes import paths of map output)",
                        "N executions can only show a subset of the outcomes of a non-deterministic site; a finding that does not show in a run is reported as not reproduced"]
